@@ -2,7 +2,10 @@
    For every option set, input event stream (bytes, Interrupted results, hard
    failures in any order) and fuel: a hard failure met by the reader is
    returned as that I/O error and is never end of input; Interrupted results
-   are retried without effect; reader-level code (scanners, numbers, tokens)
+   are retried without effect, and interleaved anywhere in a stream they are
+   invisible to the whole parser - same values, same errors at the same
+   positions, same end (C06_interrupts_invisible, by a two-run traversal of
+   the parser); reader-level code (scanners, numbers, tokens)
    that consumed a failure returns exactly that I/O error; and no parser call
    that consumed a failure returns a value. Agreement of &str, &[u8] and
    io::Read input is proved on the printed text of every value covered by
@@ -11,7 +14,7 @@
    only (theorems.json). *)
 From Coq Require Import SpecFloat.
 Require Import Base Value Float PrintOptions Printer ParseOptions Utf8 Reader Scan Num NumberOps Parser.
-Require Import RelFramework IoProofs RoundtripProofs TextProofs.
+Require Import RelFramework IoProofs RoundtripProofs TextProofs SimFramework InterruptProofs.
 Local Open Scope nat_scope.
 
 Theorem C06_failure_is_error : forall r e l, rpending r = false -> skip_intr (rinput r) = EFail e :: l ->
@@ -62,6 +65,41 @@ Qed.
 Print Assumptions C06_sources_agree_partial.
 
 (* a failure in the middle of a token, of a list, after an interrupt *)
+(* Interrupted results anywhere in the stream: strip removes them; two streams
+   with the same strip are read alike by every call (the relation iprel is kept,
+   so the statement chains over call histories), by a whole iteration and by
+   the single-shot entry point. The step budget is the same on both sides;
+   from_trait k inp is from_trait_with (fuel_for inp) k inp. *)
+Theorem C06_interrupts_invisible_call : forall ro alpha fast std_parse fuel s1 s2, iprel s1 s2 ->
+  fst (next_value ro alpha fast std_parse fuel s1) = fst (next_value ro alpha fast std_parse fuel s2) /\
+  iprel (snd (next_value ro alpha fast std_parse fuel s1)) (snd (next_value ro alpha fast std_parse fuel s2)).
+Proof. exact next_value_interrupts. Qed.
+Print Assumptions C06_interrupts_invisible_call.
+
+Theorem C06_interrupts_invisible_datum_call : forall ro alpha fast std_parse fuel s1 s2, iprel s1 s2 ->
+  fst (next_datum ro alpha fast std_parse fuel s1) = fst (next_datum ro alpha fast std_parse fuel s2) /\
+  iprel (snd (next_datum ro alpha fast std_parse fuel s1)) (snd (next_datum ro alpha fast std_parse fuel s2)).
+Proof. exact next_datum_interrupts. Qed.
+Print Assumptions C06_interrupts_invisible_datum_call.
+
+Theorem C06_interrupts_invisible : forall ro alpha fast std_parse fuel inp1 inp2, strip inp1 = strip inp2 ->
+  from_trait_with ro alpha fast std_parse fuel SrcIo inp1 = from_trait_with ro alpha fast std_parse fuel SrcIo inp2 /\
+  forall n, iterate_values ro alpha fast std_parse fuel n (init_state SrcIo inp1) =
+            iterate_values ro alpha fast std_parse fuel n (init_state SrcIo inp2).
+Proof.
+  intros ro alpha fast std_parse fuel inp1 inp2 H. split; [apply from_trait_interrupts; exact H|].
+  intros n. apply iterate_values_interrupts. apply init_related. exact H.
+Qed.
+Print Assumptions C06_interrupts_invisible.
+
+Example C06_interrupts_nonvacuous :
+  let a := [EInterrupted; EByte 40; EInterrupted; EInterrupted; EByte 97; EByte 32; EInterrupted; EByte 34; EByte 120; EInterrupted; EByte 34; EByte 41; EInterrupted] in
+  let b := bytes_events (s2b "(a ""x"")") in
+  strip a = strip b /\
+  from_trait default_ro (fun _ => true) true dec_to_f64 SrcIo a = POk (vlist [Symbol (s2b "a"); String (s2b "x")]) /\
+  from_trait default_ro (fun _ => true) true dec_to_f64 SrcIo b = POk (vlist [Symbol (s2b "a"); String (s2b "x")]).
+Proof. cbv zeta. split; [reflexivity|]. split; vm_compute; reflexivity. Qed.
+
 Example C06_nonvacuous :
   let run inp := from_trait default_ro (fun _ => true) true dec_to_f64 SrcIo inp in
   run [EByte 40%N; EByte 97%N; EFail 5%N; EByte 41%N] = PErr (XErr (EIo 5%N)) /\
